@@ -51,7 +51,9 @@ def check_traversal(report):
     for q, ci in sorted(holders.items()):
         fn = ci.members["add_to_address_allowlist"].node
         p = ci.module.path
-        src = ast.unparse(fn)
+        from ..pymodel import nfunc
+        # the normal form unrolls `for t in (self.a, self.b): t.add_to_address_allowlist(...)` and looks through local aliases
+        src = ast.unparse(fn) + "\n" + ast.unparse(nfunc(m, m.func(f"{q}.add_to_address_allowlist"), keep={"add_to_address_allowlist"}))
         # own address
         own = ("address_allowlist.add(self.ident)" in src or "address_allowlist.add(self.meta.address)" in src)
         if ci.name in ("MessageType", "EnumType", "Method", "Service"):
